@@ -253,7 +253,7 @@ def check_deferred_rung(ctx, fn, P, reason, result, spec_text, atoms, subst, oid
     if not s.loops:
         raise AnalysisBroken("%s: rejection '%s' is not inside a loop (idiom changed)" % (fn.q, reason))
     lp = s.loops[0]
-    code = in_loop_formula(s, lp, subst)
+    code = drop_loop_conds(in_loop_formula(s, lp, subst), all_loop_infos(fn, subst))
     check_equiv(ctx, code, spec_text, atoms, "%s/rung:%s/cond" % (oid, reason), "LADDER",
                 "in an iteration of the transaction loop of %s, '%s' is raised exactly when (%s)" % (fn.q, reason, spec_text), s.where)
     ic = invalid_call(s.expr)
@@ -330,6 +330,7 @@ def check_accumulator(ctx, fn, P, name, init_rx, adds, oid=None, subst=None, sco
         ctx.ob("%s/add-loop:%s" % (oid, text), "SUM", "%s adds %s %s" % (fn.q, text, "once (outside any inner loop)" if loop_rx is None else "for every element of a complete loop " + loop_rx),
                bool(okl), s.where, {"loops": [loop_range_key(lp, subst) for lp in s.loops]})
         code = own_formula(s, subst) if own else (in_loop_formula(s, scope, subst) if scope is not None else s.formula(subst))
+        code = drop_loop_conds(code, all_loop_infos(fn, subst))
         check_equiv(ctx, code, spec, atoms, "%s/add-cond:%s" % (oid, text), "SUM", "%s adds %s exactly when (%s)" % (fn.q, text, spec), s.where)
     extra = [s for i, s in enumerate(ws) if i not in used]
     ctx.ob("%s/no-other-write" % oid, "SUM", "%s is modified by nothing but the listed additions" % name, not extra, fn.where,
@@ -419,50 +420,67 @@ def _plain(subst):
 
 def loop_info(fn, lp, subst):
     """Describe a loop independent of its spelling.  kind: 'each' (range-for) | 'index' (for (T v = S; v < R.size(); ++v)) | 'other';
-    range: canonical text of R; var: loop variable; start: text of S ('0' for range-for); cond: the canonical loop-condition atom of an
-    index loop; complete: no break, and for an index loop step +1 over an index that the body never writes."""
+    ranges: canonical texts of R (with and without the engine's element normalisation); var: loop variable; start: text of S ('0' for
+    range-for); conds: canonical loop-condition atoms of an index loop; complete: no break, and for an index loop step +1 over an index
+    that nothing but the loop header writes."""
     k = lp.get("k")
     s0 = _plain(subst)
+    both = [s0, dict(subst or {})]
+
+    def texts(e, drop=None):
+        out = []
+        for sb in both:
+            t = F.key(F.expand(e, {k2: v2 for k2, v2 in sb.items() if k2 != drop}))
+            if t not in out:
+                out.append(t)
+        return out
     if k == "foreach":
         v = lp.get("var") or {}
-        return dict(kind="each", range=F.key(F.expand(lp.get("range"), s0)), var=v.get("n"), start="0", cond=None, complete=not has_break(lp.get("b")), loop=lp)
+        rs = texts(lp.get("range"))
+        return dict(kind="each", range=rs[0], ranges=rs, var=v.get("n"), start="0", cond=None, conds=[], counted=True, complete=not has_break(lp.get("b")), loop=lp)
     if k == "for":
         var, start, cond, inc = for_shape(lp, s0)
         c = lp.get("c")
         if var and is_expr(c) and c[0] == "b" and c[1] == "<" and match(["local", var], c[2]) and is_expr(c[3]) and c[3][0] in ("mcall", "vcall") and len(c[3]) == 3 \
                 and c[3][1].endswith("::size"):
-            s1 = {k2: v2 for k2, v2 in s0.items() if k2 != var}
-            rng = F.key(F.expand(c[3][2], s1))
-            complete = inc in ("%s++" % var, "++%s" % var) and not has_break(lp.get("b")) and not [w for w in writes_to_local(fn, var) if w[1] not in ("post++", "++")] \
-                and len([w for w in writes_to_local(fn, var)]) == len([1 for l2 in loops_in(fn, "for") if for_shape(l2, s0)[0] == var])
-            return dict(kind="index", range=rng, var=var, start=start, cond="%s < %s.size()" % (var, rng), complete=complete, loop=lp)
-    return dict(kind="other", range=None, var=None, start=None, cond=None, complete=False, loop=lp)
+            rs = texts(c[3][2], drop=var)
+            nloops = len([1 for l2 in loops_in(fn, "for") if for_shape(l2, s0)[0] == var])
+            ws = writes_to_local(fn, var)
+            counted = inc in ("%s++" % var, "++%s" % var) and not [w for w in ws if w[1] not in ("post++", "++")] and len(ws) == nloops
+            conds = ["%s < %s.size()" % (var, r) for r in rs]
+            return dict(kind="index", range=rs[0], ranges=rs, var=var, start=start, cond=conds[0], conds=conds, counted=counted,
+                        complete=counted and not has_break(lp.get("b")), loop=lp)
+    return dict(kind="other", range=None, ranges=[], var=None, start=None, cond=None, conds=[], counted=False, complete=False, loop=lp)
 
 
-def elem_rx(info, deref=False):
+def elem_rx(info):
     """Regex for 'the current element' of the loop in canonical terms: each(R) (range-for, or a counting loop the engine normalised) or R[v]."""
-    r = re.escape(info["range"] or "?")
-    alts = [r"each\(" + r + r"\)"]
-    if info["kind"] == "index":
-        alts.append(r + r"\[" + re.escape(info["var"]) + r"\]")
-    return r"(?:" + "|".join(alts) + r")"
+    alts = []
+    for r in info["ranges"]:
+        alts.append(r"each\(" + re.escape(r) + r"\)")
+        if info["kind"] == "index":
+            alts.append(re.escape(r) + r"\[" + re.escape(info["var"]) + r"\]")
+    return r"(?:" + "|".join(alts or ["(?!)"]) + r")"
 
 
 def loop_key_rx(info):
     """Regex accepting the engine's range key of this loop in either spelling."""
-    r = re.escape(info["range"] or "?")
-    alts = [r"each\(" + r + r"\)"]
-    if info["kind"] == "index":
-        alts.append(r"for\(" + re.escape(info["start"] or "?") + r"; " + re.escape(info["cond"]) + r"\)")
-    return r"(?:" + "|".join(alts) + r")"
+    alts = []
+    for r in info["ranges"]:
+        alts.append(r"each\(" + re.escape(r) + r"\)")
+    for c in info["conds"]:
+        alts.append(r"for\(" + re.escape(info["start"] or "?") + r"; " + re.escape(c) + r"\)")
+    return r"(?:" + "|".join(alts or ["(?!)"]) + r")"
 
 
 def drop_loop_conds(f, infos):
     """Inside a complete index loop its condition `v < R.size()` holds, behind it the negation holds: both are spelling artefacts of the
-    counting form (a range-for has neither), so they are set to true for *complete* loops only."""
+    counting form (a range-for has neither), so they are set to true - only for loops whose index steps by one and is written by nothing else
+    (the engine emits the negated condition behind a loop only when the loop has no break)."""
     for info in infos:
-        if info.get("kind") == "index" and info.get("complete") and info.get("cond"):
-            f = _drop_both(f, info["cond"])
+        if info.get("kind") == "index" and info.get("counted"):
+            for c in info["conds"]:
+                f = _drop_both(f, c)
     return f
 
 
